@@ -32,7 +32,7 @@ MANIFEST = {
     "text": "All programs in the bounded family are read by the real reader; character conservation, row integrity, ordering and exact end-to-start chaining are checked on each.",
     "note": "Bounds: rows per stream, three text shapes, three gaps, segment sequences up to length 2 (quick) / 3 (thorough).",
 }
-SHAPES = [lambda L: L + L.lower() + L + L.lower(), lambda L: L + L.lower() + " " + L + "d", lambda L: L, lambda L: (L + L.lower()) * 16, lambda L: "  " + L + L.lower() + " x"]
+SHAPES = [lambda L: L + L.lower() + L + L.lower(), lambda L: L + L.lower() + " " + L + "d", lambda L: L, lambda L: (L + L.lower()) * 16, lambda L: "  " + L + L.lower() + " x", lambda L: L + "\u00c1" + L.lower() + "\u266a\u00f1 \u00fc" + L]
 LETTERS = "ABCDEFGHJK"
 GAPS = [0, 1, 30]
 
@@ -58,7 +58,7 @@ def seg_lines(seg, d):
             w = []
             if every or i == 0:
                 w += [cmd] * d
-            w += [C.CR] * d + [C.pac(base, 0 if base_pat != 3 else 4)] * d + C.text_words(t)
+            w += [C.CR] * d + [C.pac(base, 0 if base_pat != 3 else 4)] * d + C.text_words(t, d)
             lines.append(w)
             rows.append(t)
     elif kind == "paint":
@@ -66,17 +66,17 @@ def seg_lines(seg, d):
         for rowspec in segs:
             w = [C.RDC] * d
             for row, t in rowspec:
-                w += [C.pac(row, 0)] * d + C.text_words(t)
+                w += [C.pac(row, 0)] * d + C.text_words(t, d)
                 rows.append(t)
             lines.append(w)
     else:
         _, t = seg
-        lines.append([C.ENM] * d + [C.RCL] * d + [C.pac(15, 0)] * d + C.text_words(t) + [C.EDM] * d + [C.EOC] * d)
+        lines.append([C.ENM] * d + [C.RCL] * d + [C.pac(15, 0)] * d + C.text_words(t, d) + [C.EDM] * d + [C.EOC] * d)
         rows.append(t)
     return lines, rows
 
 
-def build(segs, d, sep, gap):
+def build(segs, d, sep, gap, spacing=0):
     out = ["Scenarist_SCC V1.0", ""]
     t = 30
     rows = []
@@ -85,7 +85,9 @@ def build(segs, d, sep, gap):
         lines, r = seg_lines(seg, d)
         rows += r
         for w in lines:
-            out.append(tc(t, sep) + "\t" + " ".join(w))
+            # spacing 1: two blanks in every third gap between code words; 2: a trailing blank (blanks are not code words)
+            body = "".join(x + ("  " if k % 3 == 1 else " ") for k, x in enumerate(w)).rstrip(" ") if spacing == 1 else " ".join(w) + (" " if spacing == 2 else "")
+            out.append(tc(t, sep) + "\t" + body)
             out.append("")
             t += len(w) + gap
             nl += 1
@@ -97,10 +99,10 @@ REJECTED_DOC = "Scenarist_SCC V1.0\n\n00:00:01:00\t9425 94ad 9470 " + " ".join([
 MANGLED_DOC = "Scenarist_SCC V1.0\n\n00:00:01:00\t9425 94ad 9470 " + C.chars("o", "k") + "\n\n00:00:0x:00\t9425 94ad 9470 " + C.chars("n", "o") + "\n"
 
 
-def evaluate(segs, d, sep, gap, chain, disturb=False):
+def evaluate(segs, d, sep, gap, chain, disturb=False, spacing=0):
     from pycaption import SCCReader
 
-    doc, rows = build(segs, d, sep, gap)
+    doc, rows = build(segs, d, sep, gap, spacing)
     v = []
     if disturb:
         # reuse runs only: the shared reader first reads the document with non-default options (result ignored); with a
@@ -241,16 +243,19 @@ def run_shard(d):
     acc = Acc()
     states = set()
 
-    def run(segs, dd, sep, gap, chain, klass):
-        v, out = evaluate(segs, dd, sep, gap, chain)
+    def run(segs, dd, sep, gap, chain, klass, spacing=0):
+        v, out = evaluate(segs, dd, sep, gap, chain, False, spacing)
         acc.traces += 1
         nrows = sum(len(seg_lines(s, 1)[1]) for s in segs)
         acc.transitions += nrows
         for i in range(nrows + 1):
             states.add(h8((klass, [s[0:2] for s in segs], i)))
-        acc.case((segs, dd, sep, gap), nrows > 0, out, {"segments": segs, "doubled": dd == 2, "separator": sep, "gap_frames": gap})
+        acc.case((segs, dd, sep, gap, spacing), nrows > 0, out, {"segments": segs, "doubled": dd == 2, "separator": sep, "gap_frames": gap, "blank_spacing_variant": spacing})
         for kind, det in v:
-            acc.violation(f"C16/{klass}/{kind}", {"segs": segs, "d": dd, "sep": sep, "gap": gap, "chain": chain, "klass": klass}, det)
+            acc.violation(f"C16/{klass}/{kind}" + ("/extra-blanks-between-code-words" if spacing else ""), {"segs": segs, "d": dd, "sep": sep, "gap": gap, "chain": chain, "klass": klass, "spacing": spacing}, det)
+        if spacing == 0 and dd == 1 and gap == GAPS[0] and sep == ":":
+            run(segs, dd, sep, gap, chain, klass, 1)
+            run(segs, dd, sep, gap, chain, klass, 2)
 
     if d["k"] == "reuse":
         shared.run(acc, reuse_items(), reuse_eval, sample=lambda it: {"reuse_run_step": list(it)})
@@ -259,6 +264,7 @@ def run_shard(d):
         shape_sets = list(itertools.product(range(3), repeat=n)) if n <= 4 else [tuple((i + j) % 3 for i in range(n)) for j in range(3)] + [tuple([0] * n), tuple([2] * n)]
         shape_sets += [tuple(3 if i == j else (i % 3) for i in range(n)) for j in range(n)]  # one row uses all 32 columns
         shape_sets += [tuple(4 if i == j else (i % 3) for i in range(n)) for j in range(n)] + [tuple([4] * n)]  # indented rows
+        shape_sets += [tuple(5 if i == j else (i % 3) for i in range(n)) for j in range(n)] + [tuple([5] * n)]  # special / extended characters
         for shapes in shape_sets:
             for base_pat in (0, 1, 2, 3):
                 for every in (True, False):
@@ -272,6 +278,7 @@ def run_shard(d):
         shape_sets = list(itertools.product(range(3), repeat=n)) if n <= 4 else [tuple((i + j) % 3 for i in range(n)) for j in range(3)]
         shape_sets += [tuple(3 if i == j else (i % 3) for i in range(n)) for j in range(n)]
         shape_sets += [tuple(4 if i == j else (i % 3) for i in range(n)) for j in range(n)] + [tuple([4] * n)]  # indented rows
+        shape_sets += [tuple(5 if i == j else (i % 3) for i in range(n)) for j in range(n)] + [tuple([5] * n)]  # special / extended characters
         for shapes in shape_sets:
             texts = texts_for(shapes)
             # non-adjacent rows painted after one RDC: captions sharing their times (no chaining clause, but
@@ -334,5 +341,6 @@ def replay(case):
             segs.append(("paint", [[tuple(x) for x in rs] for rs in s[1]]))
         else:
             segs.append(("pop", s[1]))
-    v, _ = evaluate(segs, case["d"], case["sep"], case["gap"], case["chain"])
-    return [{"sig": f"C16/{case['klass']}/{k}", "detail": det} for k, det in v]
+    sp = case.get("spacing", 0)
+    v, _ = evaluate(segs, case["d"], case["sep"], case["gap"], case["chain"], False, sp)
+    return [{"sig": f"C16/{case['klass']}/{k}" + ("/extra-blanks-between-code-words" if sp else ""), "detail": det} for k, det in v]
